@@ -971,6 +971,7 @@ func main() {
 
 	// --- C11 / C10 / C09: glue of the derivation functions (see emitSpecFacts below) ---
 	emitSpecFacts(w, cryptoP, nut13P, walletP)
+	emitHardenedKeyStart(w, repo)
 
 	w("\nend Gonuts.Gen\n")
 
@@ -1247,4 +1248,51 @@ func emitSpecFacts(w func(string, ...any), cryptoP, nut13P, walletP *pkg) {
 	p2 := findFunc(walletP, "", "DeriveP2PK")
 	args("spec_p2pk_Derive", append(append(append(callArgsSrc(p2, "key.Derive"), callArgsSrc(p2, "purpose.Derive")...),
 		callArgsSrc(p2, "coinType.Derive")...), callArgsSrc(p2, "first.Derive")...))
+}
+
+// emitHardenedKeyStart reads the constant hdkeychain.HardenedKeyStart from the btcutil version that /repo's go.mod
+// pins, in the module cache (the same files the harness is compiled against).  Data only.
+func emitHardenedKeyStart(w func(string, ...any), repo string) {
+	missing := func(why string) { w("def spec_hardenedKeyStart : String := %s\n", leanStr("<missing: "+why+">")) }
+	gomod, err := os.ReadFile(filepath.Join(repo, "go.mod"))
+	if err != nil {
+		missing("go.mod")
+		return
+	}
+	version := ""
+	for _, line := range strings.Split(string(gomod), "\n") {
+		f := strings.Fields(line)
+		for i := 0; i+1 < len(f); i++ {
+			if f[i] == "github.com/btcsuite/btcd/btcutil" {
+				version = f[i+1]
+			}
+		}
+	}
+	if version == "" {
+		missing("btcutil not required")
+		return
+	}
+	var caches []string
+	if c := os.Getenv("GOMODCACHE"); c != "" {
+		caches = append(caches, c)
+	}
+	for _, gp := range filepath.SplitList(os.Getenv("GOPATH")) {
+		caches = append(caches, filepath.Join(gp, "pkg", "mod"))
+	}
+	if h, err := os.UserHomeDir(); err == nil {
+		caches = append(caches, filepath.Join(h, "go", "pkg", "mod"))
+	}
+	for _, c := range caches {
+		dir := filepath.Join(c, "github.com", "btcsuite", "btcd", "btcutil@"+version, "hdkeychain")
+		if _, err := os.Stat(dir); err != nil {
+			continue
+		}
+		env := collectConsts(parseDir(dir))
+		if v, ok := env["HardenedKeyStart"].(int64); ok {
+			w("def spec_hardenedKeyStart : Nat := %d\n", v)
+			w("def spec_btcutilVersion : String := %s\n", leanStr(version))
+			return
+		}
+	}
+	missing("hdkeychain source not in the module cache")
 }
